@@ -90,6 +90,37 @@ def mutate(rng, b):
     return bytes(b)
 
 
+FROST_POINT_OFFS = {"group_pk": lambda n: [0], "share": lambda n: [64], "signer_pk": lambda n: [32], "vss_list": lambda n: list(range(0, n, 33)),
+                    "commitment": lambda n: [32, 65], "commitment_list": lambda n: [k + o for k in range(0, n, 98) for o in (32, 65)], "signature": lambda n: [0]}
+
+
+def altform(rng, suite, ty, val):
+    """A well-formed object in which one embedded point is re-encoded in another *valid* format of the same curve (SEC1 uncompressed,
+    hybrid, or the one-byte point at infinity): decoders that accept several formats internally must still refuse the object, not
+    copy it into a fixed-size buffer."""
+    if suite not in ("p256", "secp256k1") or ty not in FROST_POINT_OFFS:
+        return None
+    offs = [o for o in FROST_POINT_OFFS[ty](len(val)) if o + 33 <= len(val)]
+    if not offs:
+        return None
+    C = G.GROUPS[suite].C
+    off = rng.choice(offs)
+    P = C.decode(val[off:off + 33])
+    if P is None or C.is_inf(P):
+        return None
+    unc = C.encode_uncompressed(P)
+    t = rng.randrange(6)
+    if t < 3:
+        alt = unc
+    elif t == 3:
+        alt = bytes([6 + (unc[64] & 1)]) + unc[1:]
+    elif t == 4:
+        alt = b"\x00"
+    else:
+        alt = unc[:33]
+    return val[:off] + alt + val[off + 33:]
+
+
 def byte_level(rng, n, frost_objs, lms_objs):
     """requests with arbitrary byte strings for every decode / verify entry point"""
     L = []
@@ -161,26 +192,33 @@ def byte_level(rng, n, frost_objs, lms_objs):
             ty = rng.choice(list(o["wire"]))
             val = rng.choice(o["wire"][ty])
             L.append("fr %s dec %s %s" % (suite, ty, hx(mutate(rng, val) if rng.randrange(4) else rbytes(rng, rlen(rng, len(val))))))
+            af = altform(rng, suite, ty, val)
+            if af is not None:
+                L.append("fr %s dec %s %s" % (suite, ty, hx(af)))
             m = rng.randrange(6)
             w = o["wire"]
 
-            def mm(x):
+            def mm(x, ty=None):
+                if ty is not None and rng.randrange(4) == 0:
+                    y = altform(rng, suite, ty, x)
+                    if y is not None:
+                        return hx(y)
                 return hx(mutate(rng, x)) if rng.randrange(3) == 0 else hx(x)
             if m == 0:
-                L.append("fr %s verify_split %s %s" % (suite, mm(rng.choice(w["share"])), mm(w["vss_list"][0])))
+                L.append("fr %s verify_split %s %s" % (suite, mm(rng.choice(w["share"]), "share"), mm(w["vss_list"][0], "vss_list")))
             elif m == 1:
-                L.append("fr %s verify %s %s %s" % (suite, mm(w["group_pk"][0]), mm(rng.choice(w["signature"])), hx(rbytes(rng, rlen(rng, 10)))))
-                L.append("fr %s verify_esig %s %s %s" % (suite, mm(w["group_pk"][0]), hx(rbytes(rng, rlen(rng, len(w["signature"][0])))), hx(rb(rng, 4))))
+                L.append("fr %s verify %s %s %s" % (suite, mm(w["group_pk"][0], "group_pk"), mm(rng.choice(w["signature"]), "signature"), hx(rbytes(rng, rlen(rng, 10)))))
+                L.append("fr %s verify_esig %s %s %s" % (suite, mm(w["group_pk"][0], "group_pk"), hx(rbytes(rng, rlen(rng, len(w["signature"][0])))), hx(rb(rng, 4))))
             elif m == 2:
-                L.append("fr %s verify_share %s %s %s %s %s" % (suite, mm(rng.choice(w["signer_pk"])), mm(rng.choice(w["sig_share"])), mm(w["commitment_list"][0]),
-                                                                mm(w["group_pk"][0]), hx(o["msg"])))
+                L.append("fr %s verify_share %s %s %s %s %s" % (suite, mm(rng.choice(w["signer_pk"]), "signer_pk"), mm(rng.choice(w["sig_share"])), mm(w["commitment_list"][0], "commitment_list"),
+                                                                mm(w["group_pk"][0], "group_pk"), hx(o["msg"])))
             elif m == 3:
-                L.append("fr %s choose %d %s %s" % (suite, rng.choice([2, 3, 4]), mm(w["group_pk"][0]), mm(w["commitment_list"][0])))
+                L.append("fr %s choose %d %s %s" % (suite, rng.choice([2, 3, 4]), mm(w["group_pk"][0], "group_pk"), mm(w["commitment_list"][0], "commitment_list")))
             elif m == 4:
-                L.append("fr %s sign %s %s %s %s %s" % (suite, mm(w["share"][0]), hx(w["nonce"][0]), hx(w["commitment"][0]), hx(o["msg"]), mm(w["commitment_list"][0])))
+                L.append("fr %s sign %s %s %s %s %s" % (suite, mm(w["share"][0], "share"), hx(w["nonce"][0]), hx(w["commitment"][0]), hx(o["msg"]), mm(w["commitment_list"][0], "commitment_list")))
             else:
-                L.append("fr %s assemble %d %s %s %s %s %s" % (suite, o["t"], mm(w["group_pk"][0]), ",".join(mm(x) for x in w["sig_share"]), mm(w["commitment_list"][0]),
-                                                               ",".join(mm(x) for x in w["signer_pk"]), hx(o["msg"])))
+                L.append("fr %s assemble %d %s %s %s %s %s" % (suite, o["t"], mm(w["group_pk"][0], "group_pk"), ",".join(mm(x) for x in w["sig_share"]), mm(w["commitment_list"][0], "commitment_list"),
+                                                               ",".join(mm(x, "signer_pk") for x in w["signer_pk"]), hx(o["msg"])))
         elif t == 10 and lms_objs:
             sname = rng.choice(list(lms_objs))
             sig, msg = lms_objs[sname]
